@@ -124,6 +124,8 @@ def rnd_chain(rng, depth, maxlen, pm=0.0, names='ABC', annos=False, orders=(1, 1
             while rng.random() < pb and len(br) < 3:
                 br.append(rnd_chain(rng, depth - 1, 2, pm, names, annos, orders, pb))
         mult = rng.choice([2, 3, 3, 4, 1]) if rng.random() < pm else 1
+        if mult > 1 and not br and rng.random() < 0.08:
+            mult = rng.choice([10, 11, 12, 20])          # more than one digit
         show1 = mult == 1 and pm > 0 and rng.random() < 0.03
         ch.append(dict(name=rng.choice(names) + (rng.choice(['', '', '1', 'x']) if annos else ''), show1=show1,
                        anno=list(rng.choice(ANNOS)) if annos else [],
